@@ -31,7 +31,8 @@ import wpilib  # noqa: E402
 import wpilib.simulation  # noqa: E402
 from collections.abc import Sequence  # noqa: E402
 from wpimath.geometry import Translation2d  # noqa: E402
-from magicbot import MagicRobot, feedback, will_reset_to  # noqa: E402
+from magicbot import MagicRobot, StateMachine, feedback, will_reset_to  # noqa: E402
+from magicbot import default_state as sm_default_state, state as sm_state  # noqa: E402
 
 DS = wpilib.simulation.DriverStationSim
 logging.disable(logging.CRITICAL)
@@ -126,6 +127,13 @@ class Shared:
     pass
 
 
+def comp_name(self_, fallback):
+    """the name the framework gave this component (its injected logger carries it); needed when several
+    components share one class"""
+    lg = getattr(self_, "logger", None)
+    return lg.name if lg is not None and lg.name in Rec.layout["comps"] else fallback
+
+
 def make_component(c, layout, variant):
     resets = layout["resets"][c]
     plain = layout["plain"][c]
@@ -148,21 +156,35 @@ def make_component(c, layout, variant):
             setattr(self, a, v)
     ns["__init__"] = __init__
 
-    def execute(self):
-        HOOK("execute", c)
-    ns["execute"] = execute
+    is_sm = c in layout.get("sm", [])
+    if is_sm:
+        # a magicbot.StateMachine as a component: never engaged, so its default state is what execute() runs
+        def go(self):
+            pass
+        ns["go"] = sm_state(first=True)(go)
+
+        def idle(self):
+            HOOK("execute", comp_name(self, c))
+        ns["idle"] = sm_default_state(idle)
+    else:
+        def execute(self):
+            HOOK("execute", comp_name(self, c))
+        ns["execute"] = execute
     for k in ("setup", "on_enable", "on_disable"):
         if has[k]:
             def f(self, k=k):
-                HOOK(k, c)
+                HOOK(k, comp_name(self, c))
+                if is_sm and k != "setup":
+                    getattr(StateMachine, k)(self)
             f.__name__ = k
             ns[k] = f
     for g in layout["feedbacks"]:
         if g["o"] == c:
             add_getter(ns, c, g["key"], variant, g.get("ty", "int"))
-    bases = (object,)
+    root = StateMachine if is_sm else object
+    bases = (root,)
     if base_ns:
-        bases = (type("Base_" + c, (object,), base_ns),)
+        bases = (type("Base_" + c, (root,), base_ns),)
     return type("Comp_" + c, bases, ns)
 
 
@@ -229,7 +251,10 @@ def read_feedback(inst, path, ty):
 
 def make_robot(layout, uid):
     comps = layout["comps"]
-    classes = {c: make_component(c, layout, uid + i) for i, c in enumerate(comps)}
+    classes = {}
+    for i, c in enumerate(comps):
+        twin = layout.get("sameclass", {}).get(c)
+        classes[c] = classes[twin] if twin in classes else make_component(c, layout, uid + i)
     nbase = layout.get("robot_split", 0)       # the first nbase components are declared on a base robot class
 
     def createObjects(self):
@@ -426,6 +451,22 @@ def gen_layout(rng, uid):
         shadow[c] = ["p"] if rng.random() < 0.25 else []
         if rng.random() < 0.5:
             fbs.append({"o": c, "key": rng.choice(["k_%s", "widget_%s", "budget_left_%s"]) % c, "ty": rng.choice(FB_TYPES)})
+    sm = [c for c in comps if rng.random() < 0.25]
+    for c in sm:
+        has[c]["on_enable"] = has[c]["on_disable"] = True     # StateMachine has both
+    sameclass = {}
+    if n >= 2 and rng.random() < 0.3:
+        a, b = rng.sample(comps, 2)
+        a, b = sorted((a, b), key=comps.index)
+        # b is a second instance of a's class: same callbacks, markers and attributes, no getters of its own
+        sameclass[b] = a
+        has[b], resets[b], plain[b] = dict(has[a]), dict(resets[a]), dict(plain[a])
+        inherit[b], redeclare[b], shadow[b] = list(inherit[a]), list(redeclare[a]), list(shadow[a])
+        fbs = [g for g in fbs if g["o"] not in (a, b)]
+        if a in sm and b not in sm:
+            sm.append(b)
+        if b in sm and a not in sm:
+            sm.remove(b)
     if rng.random() < 0.4:
         fbs.append({"o": "robot", "key": rng.choice(["rk_%d", "target_%d"]) % uid, "ty": rng.choice(FB_TYPES)})
     nm = rng.choice([0, 1, 1, 2])
@@ -434,7 +475,8 @@ def gen_layout(rng, uid):
     return {"comps": comps, "has": has, "resets": resets, "plain": plain, "feedbacks": fbs,
             "teleAuto": rng.random() < 0.5, "modes": modes, "defmode": defmode,
             "period": rng.choice([20000, 20000, 5000, 15625]),
-            "inherit": inherit, "redeclare": redeclare, "shadow": shadow, "robot_split": rng.randint(0, n)}
+            "inherit": inherit, "redeclare": redeclare, "shadow": shadow, "sm": sm, "sameclass": sameclass,
+            "robot_split": rng.randint(0, n)}
 
 
 def apply_env(e):
